@@ -131,6 +131,7 @@ def judge(w, B1, T1, close_after):
             if s_.error is not None:
                 w.node.read_event(s_)
     a = w.observe()
+    w.entered_by_attack = B1.bid in a['state']
     b = w.before
     if w.net.escaped:
         bad.append(('exception-escaped', "exception escaped the node's event handling: %s %s" % (w.net.escaped[0][1], w.net.escaped[0][2])))
@@ -188,6 +189,26 @@ def judge(w, B1, T1, close_after):
             bad.append(('victim-affected', "completing the honest connection's pending frame no longer gets an answer (%s)" % got))
         if w.net.escaped:
             bad.append(('exception-escaped', "exception escaped: %s" % (w.net.escaped[0],)))
+    # ... and the node still serves honest peers exactly as a node that was never attacked does: the transcript's valid
+    # block and transaction, delivered by the other honest connection, are accepted, stored and pooled
+    if not bad and w.O.alive:
+        from skepticoin.networking.messages import DataMessage, DATA_BLOCK, DATA_TRANSACTION
+        if B1.bid not in a['state'] and entered_valid is None:
+            w.net.clock.t = max(w.net.clock.t, B1.ts)
+            w.O.send(DataMessage(DATA_BLOCK, world.from_wire(B1.block)))
+            s2 = w.snapshot()
+            if B1.bid not in s2['state_ids'] or B1.bid not in s2['rows']:
+                bad.append(('honest-delivery-impaired', "after the attack a valid block delivered by an honest peer is not accepted "
+                            "and stored (in state: %s, in store: %s)" % (B1.bid in s2['state_ids'], B1.bid in s2['rows'])))
+        if not bad and enc.txid(T1) not in [enc.txid(t) for t in w.node.cm.transaction_pool]:
+            hd = B1 if B1.bid in w.node.cm.coinstate.block_by_hash and w.node.cm.coinstate.current_chain_hash == B1.bid else None
+            if hd is not None and not refmodel.validate_tx(T1, hd.utxo):
+                w.O.send(DataMessage(DATA_TRANSACTION, T1))
+                if enc.txid(T1) not in [enc.txid(t) for t in w.node.cm.transaction_pool]:
+                    bad.append(('honest-delivery-impaired', "after the attack a valid transaction delivered by an honest peer is "
+                                "not admitted to the pool"))
+        if w.net.escaped:
+            bad.append(('exception-escaped', "exception escaped: %s" % (w.net.escaped[0],)))
     return bad
 
 
@@ -196,7 +217,8 @@ def run_mutant(phase, same_host, data, frag, close_after):
     try:
         msgs, B1, T1 = base_messages(w, phase)
         deliver(w, data, frag)
-        return judge(w, B1, T1, close_after), w.X.alive, (B1.bid in w.node.cm.coinstate.block_by_hash)
+        res = judge(w, B1, T1, close_after)
+        return res, w.X.alive, getattr(w, 'entered_by_attack', False)
     finally:
         w.close()
 
